@@ -89,7 +89,8 @@ def _chunk(args):
           mujoco.mj_kinematics(mjm1, d1)
           mujoco.mj_collision(mjm1, d1)
           ref1 = collide.contacts_of(d1)
-          if len(ref1) == len(got) and all(any(abs(y["dist"] - x["dist"]) <= tol and np.abs(y["pos"] - x["pos"]).max() <= 5 * tol and np.abs(y["frame"][0] - x["frame"][0]).max() <= 2e-2 for x in ref1) for y in got):
+          near = lambda y, xs: any(abs(y["dist"] - x["dist"]) <= tol and np.abs(y["pos"] - x["pos"]).max() <= 5 * tol and np.abs(y["frame"][0] - x["frame"][0]).max() <= 2e-2 for x in xs)
+          if (len(ref1) == len(got) and all(near(y, ref1) for y in got)) or all(near(y, ref) for y in got):  # ... or part of MuJoCo's face polygon
             cls = {"cls": "multiccd_count_mesh"}
         out.append((dict({"what": "number of contacts differs from mj_collision", "pair": f"{c['t1']}-{c['t2']}", "pose": c["pose"]}, **cls),
                     f"world {w}: {len(got)} vs {len(ref)} contacts (signed distance {actual:.5f}, margin {case['margin'] / 1000})", where))
